@@ -24,7 +24,8 @@ RULE = ("scenario = pool (min,max) in {(1,2),(2,3),(3,8)} (thorough adds (1,5),(
 
 def main(run):
     build_harness()
-    ok, log = proof_obligations(run, PID, extra_obligations=1, extra_names=["correspondence_C17: Pool/Check.v check_cap on every snapshot = []"])
+    regen_pool()
+    ok, log = proof_obligations(run, PID, extra_obligations=2, extra_names=["T3: pool wrappers shape obligation (obligations/GenPoolOk.v)", "correspondence_C17: Pool/Check.v check_cap on every snapshot = []"])
     rng = random.Random(run.seed)
     scs = make_scenarios(rng, run.tier)
     run.log("running %d pool scenarios" % len(scs))
@@ -41,9 +42,12 @@ def main(run):
         seen.add(code)
         run.report({"kind": "pool-scenario", "symptom": code}, {"scenario": strip(byid[sid]), "observation": {k: ob[sid].get(k) for k in ("snaps", "stuck", "reqs", "crash", "stderr")}, "disagreement": CAP_CODES[code]},
                    "C17: pool (%d,%d): %s" % (byid[sid]["min"], byid[sid]["max"], CAP_CODES[code]))
+    bad_shape = shape_report(run, PID, 'wrappers', bool(run.violations)) if ok else []
     if not ok and not run.violations:
         run.report({"kind": "proof", "theorem": PID}, {"theorem": "Props/C17.v", "log": log[-3000:]}, "C17: the Coq development no longer builds and no failing history was found", no_input=True)
     cov = run.coverage
+    if ok and not bad_shape:
+        cov["discharged"] += 1
     if not mine:
         cov["discharged"] += 1
     cov.update({"evaluations": len(scs), "distinct_nontrivial": counts["snapshots_with_2_or_more_requests_inside_a_rule"], "rule": RULE,
